@@ -7,7 +7,7 @@ from hypothesis import strategies as st
 from vf.harness import Check
 from vf.gen import lens as GL
 from vf.gen.build import build
-from vf.gen.edit import edit_strategy, apply_edit
+from vf.gen.edit import edit_strategy, apply_edit, maybe_reload
 
 EPS = [10 ** (-1 - 0.5 * i) for i in range(7)]     # 1e-1 ... 1e-4
 
@@ -40,13 +40,23 @@ class C05(Check):
                            for q in s['surfs']])
 
     def check(self, case, out):
-        spec = case['spec']
+        import copy
+        spec = copy.deepcopy(case['spec'])
+        # vignetting factors on the off-axis fields only (the usual set-up): the field point(s) nearest the axis carry
+        # none, so the axial bundle is the full pupil and "pupil coordinate eps" means the height eps x EPD/2.  (How a
+        # factor on the axial field rescales the bundle is not fixed by any listed property.)
+        if spec['fields']:
+            m0 = min(abs(fd['y']) for fd in spec['fields'])
+            for fd in spec['fields']:
+                if abs(fd['y']) == m0:
+                    fd['vx'] = fd['vy'] = 0.0
         out.cls(*GL.spec_classes(spec))
         o = build(spec)
         self.core(out, o, spec)
         ed = case.get('edit')
         if ed:
             # history on one Optic: trace, edit through the public setters, trace again against the edited reference
+            o = maybe_reload(o, ed)
             spec2 = apply_edit(o, spec, ed)
             if spec2 is not None:
                 out.cls('retraced_after_' + ed['kind'] + '_edit')
@@ -158,6 +168,8 @@ class C05(Check):
                     nt = True
             return dy, du
 
+        if any(fd.get('vy') or fd.get('vx') for fd in spec['fields']):
+            out.cls('off_axis_fields_with_vignetting_factors')
         # marginal-type
         r = run('marginal', rya, rua, lambda e: e, lambda e: (0.0, e))
         if r is not None and math.isinf(ps.t_obj) and abs(rua[-1]) > 1e-9:
